@@ -1051,6 +1051,19 @@ def _lookup_rule(self, n, guard, S, row, xv):
         lo_row = lo_atom[len(S) + 1:-4]
         same_next = (up_row.replace(' ', '') in ('1+' + lo_row.replace(' ', ''), lo_row.replace(' ', '') + '+1'))
         if same_next:
+            # the scan over the pieces must start at the first one: a later start can skip the piece that holds x (then only the fall-back is left)
+            inner = None
+            for lp_ in walk(g.body):
+                if lp_.get('kind') == 'ForStmt' and any(m_ is cond for m_ in walk(lp_)):
+                    inner = lp_
+            if inner is not None:
+                ind_ = flow.induction(inner)
+                if ind_ is None or ind_['init'].const_value() != 0:
+                    self.chk.instance('SP.lookup', '%s the scan over the pieces starts at `%s`, not at the first piece: that the piece holding x is always reached is not decided' %
+                                      (g.unit.where(inner), g.unit.text(kids(inner)[0])[:50]), 'undecided')
+                    self.chk.broke('SP.lookup (%s): the scan over the spline pieces does not start at piece 0 (%s); completeness of the lookup is not decided' %
+                                   (g.name, g.unit.text(kids(inner)[0])[:50]))
+                    return
             self.chk.instance('SP.lookup', '%s piece %s is evaluated exactly when %s[%s][0] <= x <= %s[%s][0]' % (g.unit.where(cond), row, S, lo_row, S, up_row))
             return
     self.chk.instance('SP.lookup', '%s piece %s is selected by a guard over other rows/columns' % (g.unit.where(cond), row), 'refuted')
